@@ -20,6 +20,9 @@ HEADER = '''import cohdl
 from cohdl import Bit, BitVector, Port, Unsigned, Signed, Signal, Null, true, false
 from cohdl import std
 
+def same(p, q):
+    return bool(p == q)
+
 class W(cohdl.Entity):
     clk = Port.input(Bit)
     a = Port.input(Unsigned[4]); b = Port.input(Unsigned[4])
@@ -116,6 +119,8 @@ class Gen:
                 arms = [(i, self.block(d - 1)) for i in range(n)]
                 els = self.block(d - 1) if rng.random() < 0.4 else None
                 out.append(("for", arms, els))
+            elif r < 0.94 and rng.random() < 0.5:
+                out.append(("sel", rng.randrange(4), rng.randrange(len(SEL_FORMS))))
             elif r < 0.97 and self.allow_await:
                 out.append(("await", self.cond()))
                 self.has_await = True
@@ -186,6 +191,12 @@ def systematic():
         progs.append({"body": [("if", [(0, arm)], arm), ("use", 0, 0)], "async": False})
         progs.append({"body": [("match", [arm, arm], arm), ("use", 0, 0)], "async": False})
         progs.append({"body": [("def", 0), ("if", [(0, [inner])], None), ("use", 0, 0)], "async": False})
+    # value selections over compiler-generated intermediates: alone, inside branches, after an await
+    for f in range(len(SEL_FORMS)):
+        progs.append({"body": [("sel", 0, f)], "async": False})
+        progs.append({"body": [("if", [(2, [("sel", 1, f)])], [("sel", 2, f)])], "async": False})
+        progs.append({"body": [("match", [[("sel", 1, f)], []], [("sel", 3, f)])], "async": False})
+        progs.append({"body": [("await", 1), ("sel", 0, f), ("await", 2), ("sel", 1, f)], "async": True})
     # conditions selected by a run-time index: polled in a later state (await) / evaluated in the same state (if)
     progs.append({"body": [("await", 9), ("def", 0), ("use", 0, 0)], "async": True})
     progs.append({"body": [("def", 0), ("use", 0, 0), ("await", 9), ("def", 0), ("use", 0, 1)], "async": True})
@@ -315,6 +326,17 @@ MATCH_PATS = ['"00"', '"01"', '"10"']
 # an intermediate is used whole or through a derived reference (slice, bit, msb, typed view)
 # a kept reference to an element selected by a run-time index: written through or read
 REF_FORMS = ["t{k} <<= self.a[0]", "self.o{j} <<= t{k}"]
+# self-contained statements whose VALUE is selected among compiler-generated intermediates (if-expression, select_with,
+# std.select over casts / arithmetic / helper results / a locally constructed Signal): every intermediate the emitted
+# selection reads must have been written in this activation, also after the compiler's clean-up passes
+SEL_FORMS = ["self.o{j} <<= bool(self.a == self.b) if self.c[0] else self.c[1]",
+             "self.o{j} <<= self.c[1] if self.c[0] else bool(self.a < self.b)",
+             "self.o{j} <<= same(self.a, self.b) if self.c[{j}] else self.c[1]",
+             'self.o{j} <<= cohdl.select_with(self.sel, {{"00": bool(self.a == self.b), "01": self.c[1]}}, default=self.c[2])',
+             'self.o{j} <<= std.select(self.sel, {{"10": same(self.a, self.b), "01": bool(self.c[0])}}, default=self.c[3])',
+             "self.w{j} <<= (self.a + 1) if self.c[0] else (self.b - 1)",
+             "self.w{j} <<= Signal[Unsigned[4]](self.a ^ self.b) if self.c[1] else self.b",
+             "self.o{j} <<= bool(bool(self.a == self.b)) if bool(self.c[0]) else bool(self.c[1])"]
 USE_FORMS = ["self.w{j} <<= t{k}", "self.s{j} <<= t{k}[2:0]", "self.o{j} <<= t{k}[1]", "self.o{j} <<= t{k}.msb()",
              "self.g{j} <<= t{k}.signed", "self.w{j} <<= t{k}", "self.s{j} <<= t{k}.bitvector[3:1].unsigned"]
 
@@ -331,6 +353,8 @@ def render(stmts, ind):
         elif k == "use":
             form = USE_FORMS[(s[1] * 7 + s[2] * 3 + len(stmts)) % len(USE_FORMS)] if len(s) < 4 else s[3]
             out.append(pad + form.format(j=s[2] % 4, k=s[1]))
+        elif k == "sel":
+            out.append(pad + SEL_FORMS[s[2] % len(SEL_FORMS)].format(j=s[1] % 4))
         elif k == "defsig":
             out.append(f"{pad}t{s[1]} = Signal[Unsigned[4]](self.a ^ self.b)")
         elif k == "defref":
